@@ -101,7 +101,9 @@ func readerProgram(r *Rng, meta GraphMeta, d Dialect, n int) []string {
 	for i := 0; i < n; i++ {
 		x := fresh("x")
 		var from []string
-		switch r.Intn(5) {
+		switch r.Intn(6) {
+		case 5:
+			from = meta.Hashables
 		case 0:
 			from = meta.Lists
 		case 1:
@@ -112,7 +114,17 @@ func readerProgram(r *Rng, meta GraphMeta, d Dialect, n int) []string {
 			from = meta.Funcs
 		}
 		add("%s = M.get(%q)\n", x, pick(from))
-		switch r.Intn(22) {
+		switch r.Intn(25) {
+		case 22, 23:
+			// hashing: the value as a dict key, a set element, an `in` operand
+			add("attempt(lambda: own.update({%s: len(own), (%s, 1): 2}))\n", x, x)
+			add("attempt(lambda: probe(%s in own, (%s, 1) in own, {%s: 1}.get(%s), len(own)))\n", x, x, x, x)
+		case 24:
+			if d.Set {
+				add("attempt(lambda: probe(len(set([%s, %s])), %s in set([%s])))\n", x, x, x, x)
+			} else {
+				add("attempt(lambda: probe({%s: 1} == {%s: 1}))\n", x, x)
+			}
 		case 0:
 			add("probe(%s)\n", x)
 		case 1:
